@@ -16,6 +16,7 @@ META = {
 }
 META['explanation'] += " R01.11 the jump placeholder is only written, never compared (a legal program is not refused for where its code lands). R01.12 the parser's binding-power table (shared with R07.1). R01.13 the frame size counts every parameter and local (shared with R02.6)."
 META['explanation'] += " R01.14 a name resolves to the current function's context or the global one only (shared with R09.3)."
+META['explanation'] += ' R01.0 the rules of C06-C14 (each states one part of what a source text denotes) are evaluated as part of this check: what they report that is not a known finding of theirs is reported here too.'
 
 ORACLE = {'+': '+', '-': '-', '*': '*', '/': '/', '%': '%', '<': '<', '<=': '<=', '>': '>', '>=': '>=', '==': '==', '!=': '!=', '&&': '&&', '||': '||'}
 MIRROR = {'+': '+', '*': '*', '==': '==', '!=': '!=', '<': '>', '>': '<', '<=': '>=', '>=': '<='}
